@@ -34,13 +34,14 @@ META = {
     "id": "C18",
     "coq_targets": ["Props/C18.vo", "Extract/Extract_C18.vo"],
     "technique": "Coq proof (membership characterisation of the frame loop via a dict-membership invariant; fold invariants for the node builders; counting lemma for the IoU table) + differential correspondence of the extracted model with the implementation + brute-force oracle over all node pairs",
-    "level_text": "Theorems C18_edges / C18_edges_gap / C18_edges_points / C18_edges_seg / C18_nodes_points(_error) / C18_nodes_seg(_ok) / C18_iou_frames / C18_iou_entries / C18_iou hold for every node list, point list and label array of every size, every near relation / squared radius and integer scale; the hand-written model is tied to /repo by running the extracted model and the implementation on the same generated inputs and comparing nodes (id, time, position, area), node_frame_dict, edge sets and IoU values; independently every implementation output is checked against the property by brute force over all pairs of detections.",
-    "level_note": "Trusted: Coq kernel, extraction (ExtrOcamlBasic), OCaml driver, Python harness. Modelled not verified: scipy KDTree.query_ball_tree (universally quantified boolean `near` in the theorems; exact integer test d^2 <= floor(r^2) in the executable model, checked against scipy on every case), skimage regionprops (labels present = positive values in ascending order; area = pixel count x prod(scale); centroid symbolic in the model, compared with an exact rational recomputation in the harness), numpy unique/logical_and in _compute_ious (modelled by counting), networkx DiGraph as a node list + edge set.",
+    "level_text": "Theorems C18_edges / C18_edges_gap / C18_edges_points / C18_edges_seg / C18_nodes_points(_error) / C18_nodes_seg(_ok) / C18_iou_frames / C18_iou_entries / C18_iou hold for every node list, point list and label array of every size, every near relation / squared radius and integer scale; the hand-written model is tied to /repo by running the extracted model and the implementation on the same generated inputs and comparing nodes (id, time, position, area), node_frame_dict, edge sets and IoU values; independently every implementation output is checked against the property by brute force over all pairs of detections. C18_points_graph_is_generated / C18_add_iou_is_generated (and, in Proofs/CandGraphTie.v, the ties of all ten functions): the candidate-graph functions of the model equal, for all arguments, the code translated on every run from the current candidate_graph/*.py (Gen/CandGraph_gen.v; fail-closed translator); scipy's KDTree is uninterpreted and only the specification of query_ball_tree is assumed; the Python raises nothing on these inputs.",
+    "level_note": "Trusted: Coq kernel, extraction (ExtrOcamlBasic), OCaml driver, Python harness. Modelled not verified: scipy KDTree.query_ball_tree (universally quantified boolean `near` in the theorems; exact integer test d^2 <= floor(r^2) in the executable model, checked against scipy on every case), skimage regionprops (labels present = positive values in ascending order; area = pixel count x prod(scale); centroid symbolic in the model, compared with an exact rational recomputation in the harness), numpy unique/logical_and in _compute_ious (modelled by counting), networkx DiGraph as a node list + edge set. Tied to the source in a second way: candidate_graph/*.py is re-translated on every run (harness/translate_candgraph.py, fail closed; combinators Model/PyRt5.v) and proved equal to the model (Proofs/CandGraphTie.v); _compute_ious up to the order of its result list.",
     "design_ref": "DESIGN.md section 9 (C18)",
     "assumptions": ["label arrays: every positive label value occurs in at most one frame (otherwise nodes_from_segmentation raises ValueError('Duplicate values found among nodes'); theorem C18_nodes_seg_ok characterises exactly this)",
                     "coordinates, times and scales are exact (integers / dyadic rationals) in the generated inputs; float rounding of arbitrary real coordinates inside scipy/skimage is out of scope",
                     "non-positive labels are background for regionprops (negative labels are not generated)"],
-    "trusted": ["scipy.spatial.KDTree.query_ball_tree: modelled as the exact test dist^2 <= r^2 (points) / as an oracle list of near label pairs computed from exact rational centroids (segmentations)",
+    "trusted": ["translator harness/translate_candgraph.py (closed idiom table; fail closed) with coq/Model/PyRt5.v",
+                "scipy.spatial.KDTree.query_ball_tree: modelled as the exact test dist^2 <= r^2 (points) / as an oracle list of near label pairs computed from exact rational centroids (segmentations)",
                 "skimage.measure.regionprops: label order, area, centroid"],
 }
 
@@ -625,6 +626,15 @@ def fixed_cases():
                        ("uint64", [2 ** 32, 2 ** 40, 2 ** 61, 5], [2 ** 32, 2 ** 24, 8, DRIVER_MAX])]:
         out.append({"kind": "I", "f1": f1, "f2": f2, "seg_dtype": dt})
     return out
+
+
+def pre_build(ctx):
+    # re-translate candidate_graph/*.py (Gen/CandGraph_gen.v, tied by Proofs/CandGraphTie.v)
+    import translate_candgraph
+
+    ok, msg = translate_candgraph.regenerate()
+    if not ok:
+        raise RuntimeError("translator refused candidate_graph/*.py: %s" % msg)
 
 
 def run(ctx):
